@@ -558,7 +558,7 @@ def rule_initial_index(ctx, prog, root, name, rule="R7"):
                 a = strip(b.call_arg_exprs(bb)[0])
                 if isinstance(a, tuple) and a[0] == "call" and a[1] == "zeros" and a[3]:
                     n = strip(a[3][0])
-                    ok = isinstance(n, tuple) and n[0] == "call" and n[1] == "ndim" and strip(n[3][0]) == ("param", 1, "self")
+                    ok = isinstance(n, tuple) and n[0] == "call" and n[1] == "ndim" and strip(n[3][0])[:2] == ("param", 1)      # the receiver, whatever it is called
                     detail = "initial index = D::zeros(self.ndim()).into_pattern()" if ok else "initial index is zeros(%s)" % fmt(n)
                 else:
                     detail = "initial index is `%s`: not the all-zero index of the array's own dimensionality (wrong for IxDyn)" % fmt(a)[:80]
